@@ -121,9 +121,10 @@ int _mzd_pluq_solve_left(mzd_t const *A, rci_t rank, mzp_t const *P, mzp_t const
 
 int _mzd_solve_left(mzd_t *A, mzd_t *B, int const cutoff, int const inconsistency_check) {
   if (inconsistency_check && B->nrows > A->nrows) {
-    mzd_t const *Bpad = mzd_init_window_const(B, A->nrows+1, 0, B->nrows, B->ncols);
-    if(!mzd_is_zero(Bpad)) return -1;
+    mzd_t const *Bpad = mzd_init_window_const(B, A->nrows, 0, B->nrows, B->ncols);
+    int const padzero = mzd_is_zero(Bpad);
     mzd_free_window((mzd_t *) Bpad);
+    if(!padzero) return -1;
   }
 
   /**
